@@ -2,6 +2,7 @@ import Yarel.Model.ChunkLines
 import Yarel.Proofs.ChunkLines
 import Yarel.Gen.CoreSource
 import Yarel.Gen.Messages
+import Yarel.Gen.CfgSites
 /-
 C17 "Errors carry the right class, message and source lines" — the parts that are facts about data structures:
 
@@ -258,6 +259,17 @@ example :
 example : classOfKind .compileError = .runtimeError ∧ kindOfClass .runtimeError = .runtimeError ∧
     kindOfClass .other = .runtimeError ∧ kindOfClass .stopIter = .runtimeError := by decide
 
+/-- `lines_parallel` is about the writer operations of the model (`Chunk::write` pushes one byte and one line; the patch routines assign
+elements).  That these are ALL the ways the sources change a chunk's two vectors is an obligation over the inventory regenerated from
+the sources on every run (`Gen.chunkWrites`: every method call on a `.code` / `.lines` vector that is not a read, every assignment to
+one or to an element of one, every `&mut` borrow of one): the only calls that change a length are the two `push`es of `Chunk::write`,
+one per vector, and everything else assigns an element of `code` (which keeps its length).  A compiler pass that removes or inserts
+code bytes without touching the line table (or the other way round) breaks this. -/
+theorem chunk_vectors_change_only_in_step :
+    (Gen.chunkWrites.filter fun s => s.2.2 != "code[_] = ..") =
+      [("chunk.rs", "Chunk::write", "code.push"), ("chunk.rs", "Chunk::write", "lines.push")] := by decide
+
+#print axioms chunk_vectors_change_only_in_step
 #print axioms lines_parallel
 #print axioms lines_parallel_from_new
 #print axioms apply_parallel
